@@ -127,7 +127,7 @@ def run_harness(ctx, hb, workdir, replay_obj=None):
     os.makedirs(workdir, exist_ok=True)
     args = [hb, "-seed", str(ctx.seed), "-tier", ctx.tier, "-out", workdir]
     fwd = forwarder_binary(ctx)
-    if fwd and (replay_obj is None or replay_obj.get("kind") == "e2e"):
+    if fwd and (replay_obj is None or replay_obj.get("kind") in ("e2e", "route")):
         args += ["-forwarder", fwd]
     if replay_obj is not None:
         inner = os.path.join(workdir, "replay_in.json")
@@ -236,7 +236,7 @@ def run(ctx):
 
     hb, hlog = ctx.build_harness(HARNESS)
     meta, res = {}, {}
-    bad = {k: {"M": [], "P": [], "U": []} for k in ("rule", "list", "e2e")}
+    bad = {k: {"M": [], "P": [], "U": []} for k in ("rule", "list", "e2e", "route")}
     if hb is None:
         ob_failed.append("harness does not build against the source tree: " + hlog[-800:])
     else:
@@ -255,14 +255,15 @@ def run(ctx):
                 ob_failed.append("correspondence shard %s did not evaluate: %s" % (shard, lg[-600:]))
             src = {"rule": load_jsonl(os.path.join(ctx.work, "rcases.jsonl")),
                    "list": load_jsonl(os.path.join(ctx.work, "lcases.jsonl")),
-                   "e2e": load_jsonl(os.path.join(ctx.work, "ucases.jsonl"))}
+                   "e2e": load_jsonl(os.path.join(ctx.work, "ucases.jsonl")),
+                   "route": load_jsonl(os.path.join(ctx.work, "vcases.jsonl"))}
             if forwarder_binary(ctx) is None:
                 ob_failed.append("forwarder binary does not build: " + FORWARDER.get("log", "")[-600:])
             if meta.get("e2e_error"):
                 ob_failed.append("end-to-end run failed: " + meta["e2e_error"])
             for shard in meta["shards"]:
                 r = res.get(shard) or {}
-                kind = {"rcases": "rule", "lcases": "list", "ucases": "e2e"}[shard.split("_")[0]]
+                kind = {"rcases": "rule", "lcases": "list", "ucases": "e2e", "vcases": "route"}[shard.split("_")[0]]
                 base = int(shard.split("_")[1].split(".")[0]) * meta["shard_size"]
                 for ident in ("M", "P", "U"):
                     for i in (ctx.parse_nlist(r.get(ident)) or []):
@@ -321,6 +322,21 @@ def run(ctx):
         ctx.violation("e2e-correspondence", dict(c, kind="e2e", texts=list_texts(c),
                                                  unchecked="correspondence model(g17 match_entries on the bare host)/real binary"),
                       False, "%d --deny-domains lists; smallest: %s" % (len(bad["e2e"]["M"]), list_texts(c)))
+    def two_lists(c):
+        return {"deny-domains": list_texts({"entries": c.get("deny") or []}),
+                "direct-domains": list_texts({"entries": c.get("direct") or []})}
+    if bad["route"]["P"]:
+        c = smallest(bad["route"]["P"])
+        ctx.violation("e2e-deny-and-direct-domains-routing-differs-from-per-rule-evaluation",
+                      dict(c, kind="route", texts=two_lists(c)), True,
+                      "%d configurations with --deny-domains and --direct-domains together for which the real binary does not start, or "
+                      "denies / dials directly / uses the upstream for a target differently from per-rule evaluation of each list by "
+                      "Go's regexp on the bare host name; smallest: %s" % (len(bad["route"]["P"]), json.dumps(two_lists(c))))
+    elif bad["route"]["M"]:
+        c = smallest(bad["route"]["M"])
+        ctx.violation("e2e-routing-correspondence", dict(c, kind="route", texts=two_lists(c),
+                                                         unchecked="correspondence model(g17 match_entries per list)/real binary"),
+                      False, "%d configurations; smallest: %s" % (len(bad["route"]["M"]), json.dumps(two_lists(c))))
     if ob_failed and not ctx.violations and not ctx.known_hits:
         ctx.violation("obligation-unchecked", dict(unchecked=ob_failed), False, ob_failed[0][:300])
     elif ob_failed:
